@@ -202,3 +202,22 @@ def register(reg: Registry) -> None:
         canaries=["len(self._pos_marks_macros) == old(len(self._pos_marks_macros))"],
         properties=["C08"],
     )
+
+    # C14 "compares equal ... macro entries (file, macro, position, call site, return address, parameter mapping)":
+    # MacroSourceMapping.__eq__ may only answer True when every one of those fields agrees
+    reg.contract(
+        SM + ":MacroSourceMapping.__eq__",
+        types={"self": "MacroSourceMapping", "other": "Any"},
+        returns="bool",
+        ensures=[
+            "implies(not isinstance(other, MacroSourceMapping), result == False)",
+            "implies(result, self.line == typed(other, 'MacroSourceMapping').line and self.column == typed(other, 'MacroSourceMapping').column)",
+            "implies(result, self.relpath_included_file == typed(other, 'MacroSourceMapping').relpath_included_file and self.macro_name == typed(other, 'MacroSourceMapping').macro_name)",
+            "implies(result, self.return_addr == typed(other, 'MacroSourceMapping').return_addr)",
+            "implies(result, self.parameter_mapping == typed(other, 'MacroSourceMapping').parameter_mapping)",
+            "implies(result, is_none(self.called_in) == is_none(typed(other, 'MacroSourceMapping').called_in))",
+        ],
+        modifies=["alloc"],
+        canaries=["result"],
+        properties=["C14"],
+    )
